@@ -442,6 +442,7 @@ func ChannelY(t Tier, r *Rng, emit Emit) {
 			emit(fmt.Sprintf("Y %s rt %s", ss, vs))
 			line := fmt.Sprintf("Y %s pack %s", ss, vs)
 			emit(line)
+			emit(fmt.Sprintf("Y %s packobs %s", ss, vs))
 			wire, ok := packReal(line)
 			if !ok {
 				continue
@@ -473,6 +474,7 @@ func ChannelY(t Tier, r *Rng, emit Emit) {
 				vs := v.Tree().String()
 				line := fmt.Sprintf("Y %s pack %s", ss, vs)
 				emit(line)
+				emit(fmt.Sprintf("Y %s packobs %s", ss, vs))
 				emit(fmt.Sprintf("Y %s rt %s", ss, vs))
 				if wire, ok := packReal(line); ok {
 					pool = append(pool, wire)
@@ -526,6 +528,7 @@ func ChannelY(t Tier, r *Rng, emit Emit) {
 			vs := v.Tree().String()
 			line := fmt.Sprintf("Y %s pack %s", ss, vs)
 			emit(line)
+			emit(fmt.Sprintf("Y %s packobs %s", ss, vs))
 			emit(fmt.Sprintf("Y %s rt %s", ss, vs))
 			if wire, ok := packReal(line); ok {
 				pool = append(pool, wire)
